@@ -6,11 +6,12 @@ From TL Require Import Lib.Base Model.DispatchTypes Gen.DispatchGen Model.Dispat
 
 Definition with_flag (i : nat) (q : quirks) : quirks :=
   match i with
-  | _ => mk_quirks false
+  | 0 => mk_quirks false (q_name_exemption_ext_case q)
+  | _ => mk_quirks (q_shebang_any_ext q) false
   end.
 
 (* candidates: the claimed vector, the claimed vector with one flag switched off, the ideal *)
-Definition candidates (q : quirks) : list quirks := [q; with_flag 0 q; ideal].
+Definition candidates (q : quirks) : list quirks := [q; with_flag 0 q; with_flag 1 q; ideal].
 
 Definition out_eqb (a b : outcome) : bool :=
   match a, b with
